@@ -145,3 +145,60 @@ pub mod props {
     inscription.properties()
   }
 }
+
+/// `subcommand::server::query::{Block, Rune}` are `pub(super)`; the same source file is compiled a
+/// second time under this module so that their `FromStr` impls can be called from
+/// `verif::text` (work stream "text", C31). Add-only; the original module is untouched.
+#[allow(dead_code)]
+#[path = "subcommand/server/query.rs"]
+mod query_copy;
+
+/// Text parsers that live behind private modules or return crate-private error types (C31).
+pub mod text {
+  use super::*;
+
+  pub use crate::{
+    error::SnafuError, inscriptions::inscription_id::ParseError as InscriptionIdParseError,
+  };
+
+  pub enum QueryBlock {
+    Height(u32),
+    Hash(BlockHash),
+  }
+
+  pub enum QueryInscription {
+    Id(InscriptionId),
+    Number(i32),
+    Sat(Sat),
+  }
+
+  pub enum QueryRune {
+    Spaced(SpacedRune),
+    Id(RuneId),
+    Number(u64),
+  }
+
+  pub fn parse_query_block(s: &str) -> Result<QueryBlock, Error> {
+    Ok(match s.parse::<query_copy::Block>()? {
+      query_copy::Block::Height(height) => QueryBlock::Height(height),
+      query_copy::Block::Hash(hash) => QueryBlock::Hash(hash),
+    })
+  }
+
+  pub fn parse_query_inscription(s: &str) -> Result<QueryInscription, Error> {
+    use crate::subcommand::server::query::Inscription;
+    Ok(match s.parse::<Inscription>()? {
+      Inscription::Id(id) => QueryInscription::Id(id),
+      Inscription::Number(number) => QueryInscription::Number(number),
+      Inscription::Sat(sat) => QueryInscription::Sat(sat),
+    })
+  }
+
+  pub fn parse_query_rune(s: &str) -> Result<QueryRune, Error> {
+    Ok(match s.parse::<query_copy::Rune>()? {
+      query_copy::Rune::Spaced(spaced_rune) => QueryRune::Spaced(spaced_rune),
+      query_copy::Rune::Id(id) => QueryRune::Id(id),
+      query_copy::Rune::Number(number) => QueryRune::Number(number),
+    })
+  }
+}
